@@ -1,4 +1,210 @@
-import AY.Spec.Plain
+/-
+  C05 — "Merging is local".
+
+  Statement (properties.jsonl): Wrapping every document of a merge sequence under the same extra
+  key (or key chain) yields exactly the unwrapped result wrapped under that key, and the merged
+  value at any path is unaffected by what sibling paths contain or how keys elsewhere are named.
+  Paths that the newer document does not mention, and that are not below a deleting node of it,
+  come out unchanged.
+  Quantifier: every merge sequence (all merge-control tags) and every wrapping prefix.
+
+  The theorems below are about `mergeF` of AY.Model.Merge for ALL nodes (any class, any flags, any
+  metadata); only the wrapper mappings are restricted to what the loader creates for an untagged
+  top-level mapping (`bareW`: no explicit and no inherited flag, no metadata; `dSafe`/`src` free).
+  Auxiliary definitions and proofs: AY/Lemmas/C05Wrap.lean (`wrapChildren`, `wrapFlags`, `wrapN`,
+  `wrapRes`, `wrapPlain`, `prependAll`), AY/Lemmas/UpdFrame.lean.
+-/
+import AY.Lemmas.C05Wrap
+import AY.Lemmas.C05Frame
+import AY.Lemmas.C02Merge
+import AY.Lemmas.UpdFrame
 namespace AY
-theorem C05_placeholder : foldUpd [] = .error .value := rfl
+
+/-! ### Concrete nodes used by the non-vacuity examples -/
+
+/-- `!force {x: 1, y: !del {}}` as stored below a wrapper -/
+def c05A : Node :=
+  .comp { prio := some 1 } .dict
+    [(.str "x", .leaf { prio := some 1 } (.scalar (.int 1))),
+     (.str "y", .comp { prio := some 1, del := some true, iDel := some true } .dict [])]
+
+/-- `{x: !weak 2, z: [1], y: !del {}}` -/
+def c05B : Node :=
+  .comp {} .dict
+    [(.str "x", .leaf { prio := some (-1) } (.scalar (.int 2))),
+     (.str "z", .comp { iDel := none } .list [(.int 0, .leaf { iDel := some true } (.scalar (.int 1)))]),
+     (.str "y", .comp { del := some true, iDel := some true } .dict [])]
+
+/-- wrapper flags of two different source files -/
+def c05Wa : Flags := { src := some "a.yaml" }
+def c05Wb : Flags := { src := some "b.yaml", dSafe := false }
+
+/-! ### One wrapping key -/
+
+/- "Wrapping every document of a merge sequence under the same extra key … yields exactly the
+   unwrapped result wrapped under that key": for ALL nodes `a b`, every key `k`, every fuel and
+   bare wrapper flags, merging `{k: a}` and `{k: b}` is determined by merging `a` and `b`:
+   * an error of the child merge is reported with `k` prepended to its path;
+   * on success the wrapper (flags: `_replace_self` of the two wrappers, re-propagated) contains
+     what the key loop leaves (`wrapChildren`): the merged child — in place, or re-adopted — or
+     nothing in the two remove-this-key cases (emptied container under an explicit `!del`; empty
+     `!del` replacement of a leaf), or a `notnew` error when the replacement of a leaf violates
+     `allow_new` below itself.  The result is always the `self` object (`true`). -/
+theorem C05_wrap (fuel : Nat) (k : Key) (wa wb : Flags) (a b : Node)
+    (hwa : bareW wa = true) (hwb : bareW wb = true) :
+    mergeF (fuel + 1) (.comp wa .dict [(k, a)]) (.comp wb .dict [(k, b)]) =
+      match mergeF fuel a b with
+      | .error e => .error (e.prepend k)
+      | .ok (nw, same) =>
+        match wrapChildren wa k a b nw same with
+        | .error e => .error e
+        | .ok cs => .ok (propagate (.comp (wrapFlags wa wb) .dict cs), true) :=
+  mergeF_wrap fuel k wa wb a b hwa hwb
+
+example : bareW c05Wa = true ∧ bareW c05Wb = true := by decide
+-- the statement instantiated on tagged nodes (priorities, `!del`, a list) …
+example := C05_wrap 3 (.str "k") c05Wa c05Wb c05A c05B (by decide) (by decide)
+-- … where the child merge succeeds and the wrapped merge keeps the key
+example : ((mergeF 3 c05A c05B).map (fun r => native r.1)).toBool = true := by decide
+example : ((mergeF 4 (.comp c05Wa .dict [(.str "k", c05A)]) (.comp c05Wb .dict [(.str "k", c05B)])).map
+    (fun r => match native r.1 with | .dict [(.str "k", _)] => true | _ => false)).toOption = some true := by
+  decide
+
+/- Error part alone: "the merged value at any path is unaffected by … how keys elsewhere are
+   named" — a failing child merge fails the wrapped merge with the same error, path extended. -/
+theorem C05_wrap_error (fuel : Nat) (k : Key) (wa wb : Flags) (a b : Node) (e : Err)
+    (hwa : bareW wa = true) (hwb : bareW wb = true) (h : mergeF fuel a b = .error e) :
+    mergeF (fuel + 1) (.comp wa .dict [(k, a)]) (.comp wb .dict [(k, b)]) = .error (e.prepend k) := by
+  rw [C05_wrap fuel k wa wb a b hwa hwb, h]
+
+example : (match mergeF 2 (.comp {} .list [(.int 0, .leaf {} (.scalar .null))])
+      (.comp { del := some false } .dict [(.str "q", .leaf {} (.scalar .null))]) with
+    | .error .merge => true | _ => false) = true := by decide
+
+/- Data part alone: whenever the wrapped merge succeeds, its data is the wrapper around the data
+   of the merged child, or the empty wrapper (remove-this-key cases). -/
+theorem C05_wrap_data (fuel : Nat) (k : Key) (wa wb : Flags) (a b r : Node) (s : Bool)
+    (hwa : bareW wa = true) (hwb : bareW wb = true)
+    (h : mergeF (fuel + 1) (.comp wa .dict [(k, a)]) (.comp wb .dict [(k, b)]) = .ok (r, s)) :
+    ∃ nw same, mergeF fuel a b = .ok (nw, same) ∧ s = true ∧
+      (native r = .dict [(k, native nw)] ∨ native r = .dict []) := by
+  rw [C05_wrap fuel k wa wb a b hwa hwb] at h
+  cases hm : mergeF fuel a b with
+  | error e => simp [hm] at h
+  | ok res =>
+    obtain ⟨nw, same⟩ := res
+    refine ⟨nw, same, rfl, ?_⟩
+    simp only [hm] at h
+    cases hc : wrapChildren wa k a b nw same with
+    | error e => simp [hc] at h
+    | ok cs =>
+      simp only [hc] at h
+      injection h with h
+      injection h with h1 h2
+      refine ⟨h2.symm, ?_⟩
+      rw [← h1, nativeOf_propagate]
+      rcases wrapChildren_shape wa k a b nw same cs hc with hcs | ⟨x, hcs, hx⟩
+      · right; subst hcs; simp [native, nativeList, CompKind.isDictFam]
+      · left; subst hcs; simp [native, nativeList, CompKind.isDictFam, hx]
+
+example : ∃ r s, mergeF 4 (.comp c05Wa .dict [(.str "k", c05A)]) (.comp c05Wb .dict [(.str "k", c05B)]) = .ok (r, s) := by
+  cases h : mergeF 4 (.comp c05Wa .dict [(.str "k", c05A)]) (.comp c05Wb .dict [(.str "k", c05B)]) with
+  | ok p => exact ⟨p.1, p.2, rfl⟩
+  | error e =>
+    have : (mergeF 4 (.comp c05Wa .dict [(.str "k", c05A)]) (.comp c05Wb .dict [(.str "k", c05B)])).toBool = true := by
+      decide
+    simp [h, Except.toBool] at this
+
+/-! ### A key chain -/
+
+/- "… under the same extra key (or key chain)": below the innermost wrapping key `k`, any further
+   chain `ks` of wrapping keys only prepends `ks` to error paths and wraps the result `ks` more
+   times (each level a mapping mutated in place and re-propagated); on data: `wrapPlain ks`. -/
+theorem C05_wrap_chain (fuel : Nat) (ks : List Key) (k : Key) (wa wb : Flags) (a b : Node)
+    (hwa : bareW wa = true) (hwb : bareW wb = true) :
+    mergeF (fuel + 1 + ks.length) (wrapN wa ks (.comp wa .dict [(k, a)])) (wrapN wb ks (.comp wb .dict [(k, b)])) =
+      (match mergeF (fuel + 1) (.comp wa .dict [(k, a)]) (.comp wb .dict [(k, b)]) with
+        | .error e => .error (prependAll ks e)
+        | .ok (r, _) => .ok (wrapRes (wrapFlags wa wb) ks r, true))
+    ∧ ∀ r, native (wrapRes (wrapFlags wa wb) ks r) = wrapPlain ks (native r) := by
+  refine ⟨?_, native_wrapRes _ ks⟩
+  apply mergeF_wrapN wa wb hwa hwb (fuel + 1) _ _ rfl
+  · simp [Node.flags, ((bareW_iff wb).1 hwb).2.1]
+  · intro r s h
+    exact mergeF_wrap_same fuel k wa wb a b hwa hwb r s h
+
+example := C05_wrap_chain 3 [.str "p", .int 7] (.str "k") c05Wa c05Wb c05A c05B (by decide) (by decide)
+example : wrapPlain [.str "p", .int 7] (.scalar .null) = .dict [(.str "p", .dict [(.int 7, .scalar .null)])] := rfl
+
+/-! ### Frame: what the newer document does not mention -/
+
+/- "Paths that the newer document does not mention, and that are not below a deleting node of it,
+   come out unchanged": for ALL mapping nodes (any flags, any children, all merge-control tags
+   below), when the newer mapping `o` is not deleting (`eDel o = false`) and the merge succeeds,
+   every key `k` that `o` does not have keeps its old child (only the inherited flags may be
+   re-propagated into it, so its data is unchanged), whatever the sibling keys contain. -/
+theorem C05_frame (fuel : Nat) (sf of : Flags) (scs ocs : List (Key × Node)) (r : Node) (s : Bool)
+    (hlive : eDel (.comp of .dict ocs) = false)
+    (h : mergeF (fuel + 1) (.comp sf .dict scs) (.comp of .dict ocs) = .ok (r, s))
+    (k : Key) (hk : alookup k ocs = none) :
+    (alookup k r.children).map native = (alookup k scs).map native := by
+  simp only [mergeF, compMerge, hlive, Bool.false_eq_true, if_false] at h
+  cases hl : mergeLoop (mergeF fuel) sf .dict scs ocs with
+  | error e => simp [hl] at h
+  | ok scs' =>
+    simp only [hl] at h
+    rw [finishMerge_dict_children sf of scs' ocs r s h k,
+      mergeLoop_frame (mergeF fuel) rfl ocs scs scs' hl k hk]
+
+-- a non-deleting tagged mapping, a key it does not mention, and a successful merge
+example : eDel c05B = false ∧ alookup (.str "keep") c05B.children = none := by decide
+example : ((mergeF 3 (.comp { prio := some 1 } .dict ((.str "keep", .leaf {} (.scalar (.int 7))) :: c05A.children))
+    c05B).map (fun r => match (alookup (.str "keep") r.1.children).map native with
+      | some (.scalar (.int 7)) => true | _ => false)).toOption = some true := by decide
+
+/-! ### The same laws on the data-only specification -/
+
+/- The wrap law of the specification `updF` (what C02 equates the merge of tag-free documents with). -/
+theorem C05_wrap_spec (fuel : Nat) (k : Key) (a b : Plain) :
+    updF (fuel + 1) (.dict [(k, a)]) (.dict [(k, b)]) = (updF fuel a b).map (fun r => .dict [(k, r)]) := by
+  rw [updF_dict_dict]
+  simp only [updF.updDict, alookup, if_true]
+  cases updF fuel a b <;> simp [Except.map, aset]
+
+/- "Paths that the newer document does not mention … come out unchanged" (specification side):
+   a key the newer mapping does not have keeps exactly its old value (or stays absent). -/
+theorem C05_frame_spec (fuel : Nat) (as bs : List (Key × Plain)) (r : Plain) (k : Key)
+    (h : updF (fuel + 1) (.dict as) (.dict bs) = .ok r) (hk : alookup k bs = none) :
+    ∃ rs, r = .dict rs ∧ alookup k rs = alookup k as := by
+  rw [updF_dict_dict] at h
+  cases hu : updF.updDict (updF fuel) as bs with
+  | error e => simp [hu, Except.map] at h
+  | ok rs =>
+    simp only [hu, Except.map] at h
+    injection h with h
+    refine ⟨rs, h.symm, ?_⟩
+    have hkeys := updDict_keys _ bs as rs hu
+    -- generalise over duplicate keys in `bs`: induction instead of `updDict_pointwise`
+    clear h hkeys
+    induction bs generalizing as with
+    | nil => simp only [updF.updDict] at hu; injection hu with hu; rw [hu]
+    | cons kv rest ih =>
+      obtain ⟨k', vb⟩ := kv
+      have hk' : ¬ k' = k ∧ alookup k rest = none := by
+        by_cases e : k' = k <;> simp_all [alookup]
+      rw [updDict_cons] at hu
+      cases hl : alookup k' as with
+      | none =>
+        simp only [hl] at hu
+        rw [ih _ hk'.2 hu, alookup_aset]; simp [hk'.1]
+      | some va =>
+        simp only [hl] at hu
+        cases hr : updF fuel va vb with
+        | error e => simp [hr] at hu
+        | ok v =>
+          simp only [hr] at hu
+          rw [ih _ hk'.2 hu, alookup_aset]; simp [hk'.1]
+
+example : alookup (.str "q") [(Key.str "b", Plain.scalar .null)] = none := by decide
+
 end AY
